@@ -300,3 +300,34 @@ c.setup(_setup)
 c.bounded('two manifest entries with the paths "first" and "second"')
 c.ensures('one-entry-per-listed-script-under-its-path', 'len(self._scripts) == 2 and self._scripts[_p1].file_name == escaped(_f1) and self._scripts[_p2].file_name == escaped(_f2)')
 c.ensures('in-the-background-only-if-so-marked', 'self._scripts[_p1].run_background is True and self._scripts[_p2].run_background is False')
+
+
+# ---- the web application's wiring: ONE WebApp (so one job controller: "a script reported as running is not started a second
+#      time" needs every request to see the same jobs), bound after injection was configured
+c = contract('web/web_module.py', 'web_wiring', serves=['C20', 'C17'], name='lemma:web_module.configure(); provide(WebApp) twice', src='''
+def web_wiring():
+    from bardolph.lib import injection as _inj
+    configure()
+    return (_inj.provide(i_web.WebApp), _inj.provide(i_web.WebApp))
+''')
+def _setup(b, case):
+    from pyvc.values import Builtin
+    lib.injection_reset(b)
+    wm = b.module('web.web_module')
+    made = b.ghost('web_apps_made', PyList())
+    chain = Opaque('settings_init', {})
+    for meth in ('add_overrides', 'apply_file', 'configure'):
+        chain.methods[meth] = lambda I_, o, a, k: None
+    wm.ns['settings'] = Opaque('settings_module', {'using': lambda I_, o, a, k: chain})
+    for nm in ('light_module', 'runtime_module'):
+        wm.ns[nm] = Opaque(nm, {'configure': lambda I_, o, a, k: None})
+    def new_app(I_, a, k):
+        app = Opaque('WebApp#%d' % len(made.items))
+        made.items.append(app)
+        return app
+    wm.ns['web_app'] = Opaque('web_app_module', attrs={'WebApp': Builtin('WebApp', new_app)})
+    wm.ns['os'] = Opaque('os', {'getenv': lambda I_, o, a, k: None})
+    return {}
+c.setup(_setup)
+c.crosscheck = False
+c.ensures('one-web-app-for-every-request', "result[0] is result[1] and len(ghost('web_apps_made')) == 1 and result[0] is ghost('web_apps_made')[0]")
